@@ -323,11 +323,16 @@ def ods_rows(source_ods_path, sheet=1):
                     "table:number-columns-repeated is %s but must be an integer" % _compat.text_repr(repeated_text),
                     location,
                 )
-            # A cell can consist of multiple paragraphs (lines).
-            cell_value = "\n".join(
-                _ods_text(text_p, location) for text_p in _findall(table_cell, "text:p", namespaces=_OOO_NAMESPACES)
-            )
-            row.extend([cell_value] * repeated_count)
+            try:
+                # A cell can consist of multiple paragraphs (lines).
+                cell_value = "\n".join(
+                    _ods_text(text_p, location)
+                    for text_p in _findall(table_cell, "text:p", namespaces=_OOO_NAMESPACES)
+                )
+                row.extend([cell_value] * repeated_count)
+            except (OverflowError, RecursionError) as error:
+                # Absurd repeat counts for cells or blanks, or text nested deeper than Python can follow.
+                raise errors.DataFormatError("cannot read cell of ODS spreadsheet: %s" % error, location)
             location.advance_cell(repeated_count)
         yield row
         location.advance_line()
